@@ -288,12 +288,14 @@ BUDGET = {
 EVIDENCE = {
     "level": "exploration",
     "rule": (
-        "Seeded base multisets of 1-6 flag vectors (n 0-30; uint8/int64/float64; values over {1,2,3,4,9} plus non-flags "
-        "{0,5,7,8,10,255,NaN,3.5}; optional masks with an adversarial byte - often FAIL - stored beneath every masked entry), each "
-        "delivered 2-5 times as seeded permutations with duplicates and regroupings (aggregate of aggregates) through "
-        "qartod_compare, aggregate and PandasStore.compute_aggregate (whose inputs are masked_all-backed collector buffers under "
-        "the dirty allocator). Non-trivial: n>0 and at least two vectors. Distinct: distinct (digest of all aggregates, digest of "
-        "the delivery plan)."
+        "Seeded base multisets of 1-6 (3 %: 65-140) flag vectors, each scenario in its own forked process: n 0-30 (now and then ~1000); "
+        "uint8 / int8 / uint16 / int64 / float32 / float64; values over {1,2,3,4,9} plus non-flags {0,5,7,8,10,100,NaN,3.5} and, for wide "
+        "integers, values that alias a flag modulo 256 (257..260, 513, 1028, -252); optional masks with an adversarial byte - often FAIL - "
+        "stored beneath every masked entry. Each base is delivered 2-5 times as seeded permutations, sub-multisets, duplications and "
+        "regroupings (aggregate of aggregates) through qartod_compare, aggregate (results labelled qartod / argo / axds) and "
+        "PandasStore.compute_aggregate (masked_all-backed collector buffers under the dirty allocator; stream ids and test names that "
+        "collide after CF-sanitising). Non-trivial: n>0 and at least two vectors. Distinct: distinct (digest of all aggregates, digest of "
+        "the delivery plan). "
     ),
     "real": ["ioos_qc.qartod.qartod_compare", "ioos_qc.qartod.aggregate", "ioos_qc.stores.PandasStore.compute_aggregate / save", "ioos_qc.results.collect_results (store path)"],
     "stub": ["hand-built flag vectors / ContextResults", "dirty allocator wrappers", "delivery scheduler (seeded permutations, duplicates, partitions)"],
